@@ -148,8 +148,8 @@ func c11DtlsRun(c c11DtlsCase) (classes []string, nontrivial bool, o c11h.Outcom
 			time.Sleep(50 * time.Microsecond)
 		}
 	})
-	if o.Hung {
-		return []string{"hung"}, true, o
+	if o.Hung || o.Inconclusive {
+		return []string{"gave-up-waiting"}, true, o
 	}
 	if dnat.entries > 0 {
 		cls = append(cls, "dnat-entry")
